@@ -72,6 +72,10 @@ func newBufEnv(c *ctx, netn int) *bufEnv {
 	logger.Log.ExitFunc = func(int) { atomic.StoreInt32(&e.fatal, 1) }
 	bind := func(k, port int) *net.UDPConn {
 		a := &net.UDPAddr{IP: net.ParseIP(e.ip(k)), Port: port}
+		if a.IP == nil {
+			fmt.Fprintln(os.Stderr, "harness: not an address:", e.ip(k), "(net argument beyond 255?)")
+			die(2)
+		}
 		conn, err := net.ListenUDP("udp4", a)
 		for try := 0; err != nil && try < 180; try++ {
 			// another process of this machine may hold the port for a while (a wildcard bind of go-upf's own forwarder
@@ -81,7 +85,7 @@ func newBufEnv(c *ctx, netn int) *bufEnv {
 		}
 		if err != nil {
 			fmt.Fprintln(os.Stderr, "harness: cannot bind", a, err)
-			os.Exit(3)
+			die(3)
 		}
 		// a release can be a burst of hundreds of datagrams written in one loop turn: make room for all of them
 		if rc, err := conn.SyscallConn(); err == nil {
@@ -113,7 +117,7 @@ func (e *bufEnv) start() {
 		}
 	}
 	fmt.Fprintln(os.Stderr, "harness: server did not come up")
-	os.Exit(3)
+	die(3)
 }
 
 func (e *bufEnv) stop() {
@@ -124,7 +128,7 @@ func (e *bufEnv) stop() {
 	case <-done:
 	case <-time.After(5 * time.Second):
 		fmt.Fprintln(os.Stderr, "harness: server did not stop")
-		os.Exit(3)
+		die(3)
 	}
 	// fresh kernel tables for the next case
 	for _, k := range []*simKernel{e.d.k, e.d.pk} {
@@ -181,7 +185,7 @@ func (e *bufEnv) settle() {
 			n := runtime.Stack(buf, true)
 			os.Stderr.Write(buf[:n])
 		}
-		os.Exit(3)
+		die(3)
 	}
 }
 
@@ -190,7 +194,7 @@ func (e *bufEnv) rpc(m message.Message, pending *[][]byte) message.Message {
 	b := make([]byte, m.MarshalLen())
 	if err := m.MarshalTo(b); err != nil {
 		fmt.Fprintln(os.Stderr, "harness: marshal:", err)
-		os.Exit(3)
+		die(3)
 	}
 	e.smf.WriteToUDP(b, e.srvA)
 	buf := make([]byte, 65536)
@@ -442,7 +446,7 @@ func runBuf(c *ctx) {
 			ie.NewRecoveryTimeStamp(time.Unix(1700000000, 0))), &pend)
 		if causeOf(asr) != "1" {
 			fmt.Fprintln(os.Stderr, "harness: association refused:", causeOf(asr))
-			os.Exit(3)
+			die(3)
 		}
 		var sess []*bufSess
 		upOf := map[uint64]uint64{}
